@@ -6,39 +6,39 @@ HERE = os.path.dirname(os.path.dirname(os.path.abspath(__file__)))
 CLAIMED = {
  "C04": dict(level="exploration", ref="DESIGN.md §3 C04",
    technique="deterministic simulation: seeded Seek/Read histories of 1-3 interleaved reader clients over a simulated block store, step-by-step comparison with an independent (content,pos) reference model, tape shrinking to a minimal replayable history",
-   text="Seeded search over histories x DAG shapes (this builder, boxo balanced/trickle importer, harness-written legal oddities) at tree widths 2..174; every call is compared with a reference reader over content parsed independently from the stored blocks. Sampling, not proof: a clean batch is evidence that no history of the explored shape breaks the ReadSeeker contract.",
+   text="Seeded search over histories x DAG shapes (this builder, boxo balanced/trickle importer, harness-written legal oddities incl. missing BlockSizes, zero-length leaves, single-link wrappers, Raw-typed and metadata-carrying nodes) at tree widths 2..174, three ways of opening the node, link systems with and without NodeReifier; every Read/Seek/AsBytes is compared with a reference reader over content parsed independently from the stored blocks. Sampling, not proof: a clean batch is evidence that no history of the explored shape breaks the ReadSeeker contract.",
    note="Trusts: boxo merkledag/unixfs protobuf parsing for the reference content; go-ipld-prime LinkSystem; well-formed DAGs only; offsets within int64; invalid whence not generated."),
  "C05": dict(level="exploration", ref="DESIGN.md §3 C05",
    technique="deterministic simulation: request monitor at the simulated block store against an independently computed allowed block set, plus re-execution on a starved store (every other block unavailable)",
-   text="Seeded search over file DAG shapes x ranges (biased to chunk/interior boundaries, empty and whole-file ranges) via Seek+ReadFull and via a MatcherSubset traversal; sharded directories (fanout 8..1024, mined hash-prefix collisions, writers: this builder and boxo incl. insert/remove histories) x member/non-member lookups; mixed trees x paths through UnixFSPathSelector. Every storage request must lie in the allowed set; on the starved store the operation must still return the model's answer.",
+   text="Seeded search over file DAG shapes x ranges (biased to chunk/interior boundaries, empty and whole-file ranges) via Seek+ReadFull on a fresh reader, via multi-step histories on one reader, and via a MatcherSubset traversal; sharded directories (fanout 8..1024, mined hash-prefix collisions; writers: this builder, boxo incl. insert/remove histories, a mixed-fanout writer) x member/non-member lookups through all three entry points; mixed trees x paths (incl. paths naming no entry) through UnixFSPathSelector; link systems with and without NodeReifier. Every storage request must lie in the allowed set; on the starved store the operation must still return the model's answer.",
    note="Only the upper bound (no over-fetch) is asserted. Trusts boxo's dag-pb/unixfs parsing and spaolacci/murmur3 for the model's hash paths. DAGs declare child sizes."),
  "C06": dict(level="fault_enumeration", ref="DESIGN.md §3 C06",
    technique="deterministic simulation with storage fault injection: requested-set equality against the model on a complete store, then exhaustive single-block fault sweep x 3 fault kinds, k-th-load-fails for every k, and seeded block subsets; every faulted execution must return an error",
-   text="Per seeded entity (file DAG or sharded directory, optionally reached through UnixFSPathSelectorBuilder) the three access paths (unixfs-preload reifier, preload selector, entity selector + BytesConsumingMatcher) are run fault-free (requested set must equal the entity's block set exactly) and under every single-block fault of the entity (complete enumeration per DAG, entities up to 300 blocks).",
+   text="Per seeded entity (file DAG, sharded or plain directory, optionally reached through UnixFSPathSelectorBuilder; link system with or without NodeReifier) the three access paths are run fault-free (requested set must equal the entity's block set exactly) and under every single-block fault of the entity x 3 kinds, the same with well-known error values, k-th-load and store-goes-away plans, block subsets, and an access-twice history on one root object.",
    note="Exhaustive per generated DAG, sampled over DAGs. A node returned together with an error is accepted. Trusts the independent model for the entity block set."),
  "C12": dict(level="fault_enumeration", ref="DESIGN.md §3 C12",
    technique="deterministic simulation with storage fault injection: exhaustive single-block unavailability sweep x 4 fault kinds (not-found, I/O error at open, I/O error mid-stream, corrupted bytes failing the hash check), k-th-load-fails-once for every k, seeded 2-3 block subsets; oracle = independent model of what stays reachable",
-   text="Per seeded DAG every non-root block is made unavailable in turn with every fault kind; sequential reads must return exactly the bytes before the missing span and then the load error (never EOF); lookups crossing a missing shard must return the load error (never not-found), lookups elsewhere the model's answer; iteration must terminate, yield each reachable entry once and report one error per missing shard met.",
+   text="Per seeded DAG every non-root block is made unavailable in turn with every fault kind (and with well-known error values incl. bare io.EOF, io.ErrUnexpectedEOF, ENOENT PathError, context errors, traversal.SkipMe); plus k-th-load-once, store-goes-away-at-load-k and subset plans. Sequential reads (from offset 0 or after a Seek) must return exactly the bytes before the missing span and then the load error (never EOF, never wrong bytes); lookups crossing a missing shard the load error (never not-found), also when repeated on one node; preload the load error; iteration must terminate, yield each reachable entry once and report one error per missing shard met; after the store recovers the same node must answer correctly.",
    note="Exhaustive per generated DAG, sampled over DAGs. Zero-length blocks may legitimately be skipped. Only error-returning entry points are judged."),
  "C20": dict(level="exploration", ref="DESIGN.md §3 C20",
    technique="deterministic simulation: ordered request log of the simulated block store compared with an independent depth-first link-order walk, each operation repeated on cold nodes in-process",
-   text="Seeded search over file DAGs, sharded directories and trees x operations (full read via AsBytes / Read loops, preload reify, MapIterator, Length, entity-selector walk, path traversal with match/preload/entity target); the first-request order must equal the model's pre-order walk on each of 3 repetitions.",
+   text="Seeded search over file DAGs, sharded directories (incl. mixed-fanout) and trees x operations (full read via AsBytes / Read loops, preload reify, MapIterator, Length, entity-selector walk, path traversal with match/preload/entity target); the first-request order must equal the model's pre-order walk on each of 3 repetitions, and all requests must come from one goroutine.",
    note="Go map order inside the library is not owned by the simulator, it is re-drawn per repetition; the oracle is a fixed order so a dependence shows as a mismatch, but only with the probability that the runtime picks a different order."),
  "C10": dict(level="exploration", ref="DESIGN.md §3 C10",
    technique="deterministic simulation: one logical input built repeatedly under seeded schedules (input-stream fragmentation, entry-slice permutations, in-process repetitions re-drawing Go map order, observed via commit order at the simulated store); all (link,size) results must be identical",
-   text="Seeded search over contents x chunkers (size-N, rabin) x widths with 7 fragmentation schedules per input, and over entry sets (incl. mined hash-prefix collisions, sets straddling the auto-shard threshold) x permutations x repetitions through BuildUnixFSDirectory, BuildUnixFSShardedDirectory and the quick builder. No reference value is involved, only equality among builds.",
+   text="Seeded search over contents x chunkers (size-N, rabin, buzhash, default spellings) x widths with 7 fragmentation schedules per input; entry sets (mined hash-prefix collisions, mixed link lengths, aliased targets, invalid-UTF-8 and bucket-label-like names, sets straddling the auto-shard threshold) x permutations x repetitions through BuildUnixFSDirectory, BuildUnixFSShardedDirectory (murmur3 and other hashers) and the quick builder; and 2-3 concurrent builds on one link system under the seeded scheduler against each build alone. No reference value is involved, only equality among builds.",
    note="Map iteration order inside the shard builder is observed, not controlled (distinct commit orders are counted in evidence)."),
  "C13": dict(level="exploration", ref="DESIGN.md §3 C13",
    technique="deterministic simulation with data-fault injection on a trusted simulated disk: bit rot, torn/misdirected reads and grammar-aware rewrites of dag-pb/UnixFS fields of stored blocks (at rest or from the k-th read), every node operation under recover() with event budgets and a wall-clock watchdog confirmed in a fresh process",
-   text="Seeded search over DAGs x 1-4 stacked corruptions (16 kinds covering the statement's list: type, fanout incl. parent/child mismatch, bitfield longer/shorter/inconsistent, hash type, FileSize/BlockSizes missing/extra/negative/packed, names absent/short/duplicated, Tsize absent) x all node operations (reify lazy+preload, Length, 4 lookup entry points, MapIterator, native Iterator, AsBytes, Seek/Read histories, entity/preload/path selector walks). The decoder clause is fed the harvested payloads and raw bytes: that part is plain input generation.",
+   text="Seeded search over DAGs x 1-4 stacked corruptions (17 kinds covering the statement's list and more: type incl. negative values, fanout incl. parent/child mismatch and self-consistent re-fanout, bitfield longer/shorter/inconsistent, hash type, FileSize/BlockSizes missing/extra/negative/packed, names absent/short/duplicated, Tsize absent, links dropped/retargeted/garbage) plus hand-made hostile directories (shard chains deeper than the hash, mixed-fanout chains with very short names, diamond chains with 2^depth paths) x all node operations; link systems with and without NodeReifier. The decoder clause is fed the harvested payloads, raw bytes and messages with extreme field values, and calls the accessors and re-encoder of whatever decoded: that part is plain input generation.",
    note="Cycles are excluded by construction. Work bounds are event budgets (16x data size) - generous, aimed at non-termination rather than constant factors."),
  "C16": dict(level="fault_enumeration", ref="DESIGN.md §3 C16",
    technique="deterministic simulation with write-side fault injection and crash/restart: commit-time children-durable invariant on every prefix of every build's write sequence; exhaustive failure of every write-protocol step (open, torn write, commit), crash at every write event with restart on durable state, disk-full at several sizes, input-stream errors",
-   text="Per seeded build (file incl. empty/one-byte/multi-level at widths 2..174, symlink, plain/sharded/auto-sharded directory with present and absent external entries, recursive import of a temp tree, quick builder) the whole single-fault plan space is enumerated (strided above 150/400 steps, root block always included). Oracles: children durable at every commit; any write fault => error and nil link; returned link => closure durable; restart after crash => no dangling builder-written link.",
+   text="Per seeded build (file incl. empty/one-byte/multi-level at widths 2..174, symlink, plain/empty/sharded/auto-sharded directory with present and absent external entries, recursive import of a temp tree rooted at a directory, file or symlink, quick builder) the whole single-fault plan space is enumerated (strided above 150/400 steps, root block always included). Oracles: children durable at every commit; any write fault => error and nil link (also for well-known error values); returned link => closure durable; restart after crash => no dangling builder-written link, and the rebuild on the durable state completes with the undisturbed link; a retry through the same link system after a transient fault behaves like a first build.",
    note="Exhaustive per generated build, sampled over builds. Links to caller-supplied entries are exempt. The quick builder is judged on ordering only (its API panics on failure)."),
  "C17": dict(level="exploration", ref="DESIGN.md §3 C17",
    technique="deterministic simulation of concurrent callers: real goroutines serialized by a seeded scheduler at every storage request and operation boundary, Go race detector with the scheduler's hand-offs hidden (runtime.RaceDisable) so only the library's own synchronisation orders tasks, per-operation equality with the sequential result",
-   text="Seeded search over schedules of 2-6 tasks x operation lists (LookupByString of members/non-members/a deep hot name, full MapIterator, Length, AsBytes, own-reader Seek/Read) on one shared node (sharded directory cold or pre-warmed, multi-block file). Oracles: no race report attributable to go-unixfsnode; every result equals the result when run alone; no panic. Each violating schedule replays from its sched tape; race candidates are re-judged in fresh processes because the detector reports a stack pair once per process.",
+   text="Seeded search over schedules of 2-6 tasks x operation lists (LookupByString of members/non-members/a deep hot name, native Lookup, full MapIterator and native Iterator, Length, AsBytes, own-reader Seek/Read) on one shared node (sharded directory cold or pre-warmed, plain directory, multi-block file; link system with or without NodeReifier). Oracles: no race report attributable to go-unixfsnode; every result equals the result when run alone (computed after the concurrent run, so that nothing is warmed beforehand); no panic, no process death.",
    note="Built with -race (run.sh builds bin/check-race for this property). Code between two park points runs unpreempted; the race detector's vector clocks, not preemption, expose unsynchronised accesses there. Reports whose innermost frame is harness code exit 2, never VIOLATION."),
 }
 
